@@ -167,5 +167,14 @@ func (s *Server) handleRPC(stream *drpcstream.Stream, rpc string) (err error) {
 	if err != nil {
 		return errs.Wrap(stream.SendError(err))
 	}
-	return errs.Wrap(stream.CloseSend())
+	err = stream.CloseSend()
+
+	// the handler has returned, so nothing will ever receive what the client
+	// may still send on this stream. terminate it locally: otherwise an unread
+	// message blocks the connection reader forever (it waits for a receiver),
+	// the client's own close is stuck behind it, and the connection can serve
+	// no further rpc although it looks healthy. nothing is sent to the client.
+	stream.Cancel(context.Canceled)
+
+	return errs.Wrap(err)
 }
